@@ -929,12 +929,39 @@ package framework
 
 //@ declare jobCapacityVerdict(ssn *Session, job *podgroup_info.PodGroupInfo) bool
 
+// C01/C05 "filters only prune hopeless cases" + C04/C08: the resource gate of FittingNode. The verdict is
+// node.IsTaskAllocatableOnReleasingOrIdle(task) on the entry state (node_info's contract says what it implies); a fit
+// error is produced only for a rejected task, and only when asked for.
+//@ define fitsRelOrIdleCpuMem(node *node_info.NodeInfo, task *pod_info.PodInfo) bool = task.ResReq.milliCpu <= node.Idle.milliCpu + node.Releasing.milliCpu && task.ResReq.memory <= node.Idle.memory + node.Releasing.memory
+//@ define wholeGpuReq(task *pod_info.PodInfo) bool = task.ResourceRequestType == "Regular" || task.ResourceRequestType == "MigInstance"
+//@ define fitsRelOrIdleGpus(node *node_info.NodeInfo, task *pod_info.PodInfo) bool = resource_info.reqGpus(task.ResReq.GpuResourceRequirement) + real(task.ResReq.GetDraGpusCount()) <= node.Idle.gpus + node.Releasing.gpus
+//@ func (*Session).isTaskAllocatableOnNode
+//@   props C01 C04 C08
+//@   nopanic off
+//@   note nopanic off: with writeFittingDelta the body calls job.GetAllPodsMap() on the job looked up by FittingNode (nil if the task's job is not in the session; the only caller, common.allocateTask, checks that before)
+//@   assume node_info.nodeReadable(node) && node_info.taskReadable(task)
+//@   note assumed (precondition of node_info's IsTaskAllocatableOnReleasingOrIdle / IsTaskAllocatable): the node's Idle / Releasing / Used vectors and the task's ResReq exist - snapshot invariants that the callers (`modifies *` steps in between) cannot carry
+//@   assume job != nil ==> podgroup_info.setsOK(job)
+//@   note assumed (precondition of GetAllPodsMap): no nil pod set is recorded on a job - snapshot invariant
+//@   ensures [cpuMemGate] result0 ==> fitsRelOrIdleCpuMem(node, task)
+//@   ensures [wholeGpuGate] result0 && wholeGpuReq(task) ==> fitsRelOrIdleGpus(node, task)
+//@   ensures [errorOnlyIfRejected] result1 != nil ==> !result0 && writeFittingDelta
+//@ end
+
+// C04 "every pod the scheduler binds or nominates goes to a node that ... (all hard constraints)" / C08 / C01 / C05:
+// a node fits iff the resource gate accepts the task AND every registered predicate does (the per-task capacity
+// callback is consulted by the predicates plugin's PredicateFn, i.e. inside predicatesOK, not by this body).
 //@ func (*Session).FittingNode
-//@   props C01 C03 C04
-//@   trusted
-//@   note assumed frame of the registered PredicateFns / capacity callbacks (function values); the verdict itself is not constrained here
+//@   props C01 C03 C04 C08
+//@   usestable []Operation Session.ClusterInfo Session.Cache Session.eventHandlers []*EventHandler ClusterInfo.PodGroupInfos ClusterInfo.Nodes map[common_info.PodGroupID]*podgroup_info.PodGroupInfo map[string]*node_info.NodeInfo
+//@   nopanic off
+//@   note nopanic off: task / node / ssn.ClusterInfo are dereferenced for log lines and look-ups; their non-nil-ness is the caller's matter (common.allocateTask is `nopanic off` too)
 //@   requires ssn != nil
 //@   modifies *
+//@   ensures [onlyPruneHopeless] result == (allocatable && old(predicatesOK(ssn, task, ssn.ClusterInfo.PodGroupInfos[task.Job], node)))
+//@   ensures [allPredicates] result ==> old(predicatesOK(ssn, task, ssn.ClusterInfo.PodGroupInfos[task.Job], node))
+//@   ensures [cpuMemGate] result ==> old(fitsRelOrIdleCpuMem(node, task))
+//@   ensures [wholeGpuGate] result && old(wholeGpuReq(task)) ==> old(fitsRelOrIdleGpus(node, task))
 //@   ensures [logsSame] logsSame()
 //@   ensures [virtual] noEmission() && reversals() == old(reversals()) && reverseFailures() == old(reverseFailures())
 //@   ensures [sessionKept] old(sessOK(ssn)) ==> sessionKept(ssn)
@@ -1002,6 +1029,7 @@ package framework
 //@   assume jobCapacityVerdict(ssn, job) == firstJobCapacityOK(ssn, job)
 //@   note jobCapacityVerdict(ssn, job) stays a declared NAME for the verdict of this call, tied to the per-callback verdicts by the `assume` above (a definition of the name at the entry state). It cannot be a `define` over ssn.IsJobOverCapacityFns: the callers under contract (common.AllocateJob, allocate.attemptToAllocateJob) state their capacity gate in their post-state, after `modifies *` steps, and do not opt into `stable Session.IsJobOverCapacityFns`, so a define would be evaluated on a havocked registration slice there. The name equates the verdicts of two calls for the same (ssn, job), which is only meaningful while the queue/job state is unchanged between them - the callers under contract call it once
 //@   modifies *
+//@   hint [skelSame] skelSame(ssn)
 //@   ensures [firstDecides] result.IsSchedulable == old(firstJobCapacityOK(ssn, job))
 //@   ensures [allRegisteredIfSingle] old(len(ssn.IsJobOverCapacityFns)) <= 1 ==> (result.IsSchedulable <==> old(allJobCapacityOK(ssn, job)))
 //@   ensures [logsSame] logsSame()
@@ -1020,6 +1048,7 @@ package framework
 //@   assume forall i int :: 0 <= i && i < len(ssn.IsNonPreemptibleJobOverQueueQuotaFns) ==> ssn.IsNonPreemptibleJobOverQueueQuotaFns[i] != nil
 //@   note assumed: no nil function is registered
 //@   modifies *
+//@   hint [skelSame] skelSame(ssn)
 //@   ensures [firstDecides] result.IsSchedulable == old(firstQuotaOK(ssn, job))
 //@   ensures [allRegisteredIfSingle] old(len(ssn.IsNonPreemptibleJobOverQueueQuotaFns)) <= 1 ==> (result.IsSchedulable <==> old(allQuotaOK(ssn, job)))
 //@   ensures [logsSame] logsSame()
@@ -1037,6 +1066,7 @@ package framework
 //@   assume forall i int :: 0 <= i && i < len(ssn.IsTaskAllocationOnNodeOverCapacityFns) ==> ssn.IsTaskAllocationOnNodeOverCapacityFns[i] != nil
 //@   note assumed: no nil function is registered
 //@   modifies *
+//@   hint [skelSame] skelSame(ssn)
 //@   ensures [firstDecides] result.IsSchedulable == old(firstTaskCapacityOK(ssn, task, job, node))
 //@   ensures [allRegisteredIfSingle] old(len(ssn.IsTaskAllocationOnNodeOverCapacityFns)) <= 1 ==> (result.IsSchedulable <==> old(allTaskCapacityOK(ssn, task, job, node)))
 //@   ensures [logsSame] logsSame()
@@ -1053,6 +1083,7 @@ package framework
 //@   assume forall i int :: 0 <= i && i < len(ssn.CanReclaimResourcesFns) ==> ssn.CanReclaimResourcesFns[i] != nil
 //@   note assumed: no nil function is registered
 //@   modifies *
+//@   hint [skelSame] skelSame(ssn)
 //@   ensures [firstDecides] result == old(len(ssn.CanReclaimResourcesFns) > 0 && api.canReclaim(ssn.CanReclaimResourcesFns[0], reclaimer))
 //@   ensures [logsSame] logsSame()
 //@   ensures [virtual] noEmission() && reversals() == old(reversals()) && reverseFailures() == old(reverseFailures())
@@ -1067,6 +1098,7 @@ package framework
 //@   assume forall i int :: 0 <= i && i < len(ssn.GetQueueDeservedResourcesFns) ==> ssn.GetQueueDeservedResourcesFns[i] != nil
 //@   note assumed: no nil function is registered
 //@   modifies *
+//@   hint [skelSame] skelSame(ssn)
 //@   ensures [firstDecides] result == old(ite(len(ssn.GetQueueDeservedResourcesFns) > 0, api.queueResourceOf(ssn.GetQueueDeservedResourcesFns[0], queue), nil))
 //@   ensures [logsSame] logsSame()
 //@   ensures [virtual] noEmission() && reversals() == old(reversals()) && reverseFailures() == old(reverseFailures())
@@ -1079,6 +1111,7 @@ package framework
 //@   assume forall i int :: 0 <= i && i < len(ssn.GetQueueFairShareFns) ==> ssn.GetQueueFairShareFns[i] != nil
 //@   note assumed: no nil function is registered
 //@   modifies *
+//@   hint [skelSame] skelSame(ssn)
 //@   ensures [firstDecides] result == old(ite(len(ssn.GetQueueFairShareFns) > 0, api.queueResourceOf(ssn.GetQueueFairShareFns[0], queue), nil))
 //@   ensures [logsSame] logsSame()
 //@   ensures [virtual] noEmission() && reversals() == old(reversals()) && reverseFailures() == old(reverseFailures())
@@ -1091,15 +1124,19 @@ package framework
 //@   assume forall i int :: 0 <= i && i < len(ssn.GetQueueAllocatedResourcesFns) ==> ssn.GetQueueAllocatedResourcesFns[i] != nil
 //@   note assumed: no nil function is registered
 //@   modifies *
+//@   hint [skelSame] skelSame(ssn)
 //@   ensures [firstDecides] result == old(ite(len(ssn.GetQueueAllocatedResourcesFns) > 0, api.queueResourceOf(ssn.GetQueueAllocatedResourcesFns[0], queue), nil))
 //@   ensures [logsSame] logsSame()
 //@   ensures [virtual] noEmission() && reversals() == old(reversals()) && reverseFailures() == old(reverseFailures())
 //@   ensures [sessionKept] old(sessOK(ssn)) ==> sessionKept(ssn)
 //@ end
 
+// C07: the validation snapshot of the registered job-solution-start hooks (proportion copies the live queue
+// usage) is FRESH: the hooks ran after the last decision was emitted to the cache (vacuous without hooks)
+//@ define snapshotFresh(ssn *Session) bool = len(ssn.OnJobSolutionStartFns) > 0 ==> api.snapshotStamp() == emitted()
 // every registered OnJobSolutionStartFn is called exactly once, in registration order (ghost call log of package api)
 //@ func (*Session).OnJobSolutionStart
-//@   props C05 C06
+//@   props C05 C06 C07
 //@   usestable []Operation
 //@   requires ssn != nil
 //@   assume forall i int :: 0 <= i && i < len(ssn.OnJobSolutionStartFns) ==> ssn.OnJobSolutionStartFns[i] != nil
@@ -1112,9 +1149,82 @@ package framework
 //@     invariant api.jobSolutionStartCalls() == old(api.jobSolutionStartCalls()) + rangeindex + 1
 //@     invariant forall i int :: 0 <= i && i <= rangeindex ==> api.jobSolutionStartAt(old(api.jobSolutionStartCalls()) + i + 1) == old(ssn.OnJobSolutionStartFns[i])
 //@     invariant pluginFrame() && skeletonFrame() && solutionStartHooksSame()
+//@     invariant rangeindex >= 0 ==> api.snapshotStamp() == emitted()
 //@     decreases len(ssn.OnJobSolutionStartFns) - rangeindex
 //@   ensures [eachOnce] api.jobSolutionStartCalls() == old(api.jobSolutionStartCalls()) + old(len(ssn.OnJobSolutionStartFns))
 //@   ensures [inOrder] forall i int :: 0 <= i && i < old(len(ssn.OnJobSolutionStartFns)) ==> api.jobSolutionStartAt(old(api.jobSolutionStartCalls()) + i + 1) == old(ssn.OnJobSolutionStartFns[i])
+//@   ensures [snapshotStamped] old(len(ssn.OnJobSolutionStartFns)) > 0 ==> api.snapshotStamp() == emitted()
+//@   ensures [hooksKept] ssn.OnJobSolutionStartFns == old(ssn.OnJobSolutionStartFns)
+//@   ensures [logsSame] logsSame()
+//@   ensures [virtual] noEmission() && reversals() == old(reversals()) && reverseFailures() == old(reverseFailures())
+//@   ensures [sessionKept] old(sessOK(ssn)) ==> sessionKept(ssn)
+//@ end
+
+// ---- scoring dispatch -----------------------------------------------------------------------------------------
+// GPU score of one GPU group: the sum of every registered function's score; the first failing function aborts (0, err).
+//@ define noGpuScoreFails(ssn *Session, task *pod_info.PodInfo, node *node_info.NodeInfo, gpuIdx string) bool = forall i int :: 0 <= i && i < len(ssn.GpuOrderFns) ==> !api.gpuScoreFails(ssn.GpuOrderFns[i], task, node, gpuIdx)
+//@ func (*Session).GpuOrderFn
+//@   props C02
+//@   requires ssn != nil
+//@   assume forall i int :: 0 <= i && i < len(ssn.GpuOrderFns) ==> ssn.GpuOrderFns[i] != nil
+//@   note assumed: no nil function is registered
+//@   pure
+//@   loop 1
+//@     invariant 0 - 1 <= rangeindex && rangeindex < len(ssn.GpuOrderFns)
+//@     invariant forall i int :: 0 <= i && i <= rangeindex ==> !api.gpuScoreFails(ssn.GpuOrderFns[i], task, node, gpuIdx)
+//@     invariant score == (sum i in range(0, rangeindex + 1) :: api.gpuScore(ssn.GpuOrderFns[i], task, node, gpuIdx))
+//@     decreases len(ssn.GpuOrderFns) - rangeindex
+//@   ensures [okIffNoneFails] (result1 == nil) == noGpuScoreFails(ssn, task, node, gpuIdx)
+//@   ensures [scoreIsSum] result1 == nil ==> result0 == (sum i in range(0, len(ssn.GpuOrderFns)) :: api.gpuScore(ssn.GpuOrderFns[i], task, node, gpuIdx))
+//@   ensures [errorScoreZero] result1 != nil ==> result0 == 0.0
+//@ end
+
+// node score: the sum of every registered function's score; the first failing function aborts (0, err)
+//@ define noNodeScoreFails(ssn *Session, task *pod_info.PodInfo, node *node_info.NodeInfo) bool = forall i int :: 0 <= i && i < len(ssn.NodeOrderFns) ==> !api.nodeScoreFails(ssn.NodeOrderFns[i], task, node)
+//@ func (*Session).NodeOrderFn
+//@   props C04
+//@   usestable []Operation Session.NodeOrderFns []api.NodeOrderFn Session.ClusterInfo Session.Cache Session.eventHandlers []*EventHandler ClusterInfo.PodGroupInfos ClusterInfo.Nodes map[common_info.PodGroupID]*podgroup_info.PodGroupInfo map[string]*node_info.NodeInfo
+//@   requires ssn != nil
+//@   assume forall i int :: 0 <= i && i < len(ssn.NodeOrderFns) ==> ssn.NodeOrderFns[i] != nil
+//@   note assumed: no nil function is registered
+//@   modifies *
+//@   loop 1
+//@     modifies *
+//@     invariant 0 - 1 <= rangeindex && rangeindex < len(ssn.NodeOrderFns)
+//@     invariant ssn.NodeOrderFns == old(ssn.NodeOrderFns)
+//@     invariant forall i int :: 0 <= i && i <= rangeindex ==> !api.nodeScoreFails(old(ssn.NodeOrderFns[i]), task, node)
+//@     invariant priorityScore == (sum i in range(0, rangeindex + 1) :: api.nodeScore(old(ssn.NodeOrderFns[i]), task, node))
+//@     invariant pluginFrame()
+//@     invariant skelSame(ssn)
+//@     decreases len(ssn.NodeOrderFns) - rangeindex
+//@   ensures [okOnlyIfNoneFails] result1 == nil ==> old(noNodeScoreFails(ssn, task, node))
+//@   ensures [firstErrorWins] old(noNodeScoreFails(ssn, task, node)) ==> result1 == nil
+//@   ensures [scoreIsSum] result1 == nil ==> result0 == (sum i in range(0, old(len(ssn.NodeOrderFns))) :: api.nodeScore(old(ssn.NodeOrderFns[i]), task, node))
+//@   ensures [errorScoreZero] result1 != nil ==> result0 == 0.0
+//@   ensures [logsSame] logsSame()
+//@   ensures [virtual] noEmission() && reversals() == old(reversals()) && reverseFailures() == old(reverseFailures())
+//@   ensures [sessionKept] old(sessOK(ssn)) ==> sessionKept(ssn)
+//@ end
+
+// pre-ordering hooks: every registered function runs (errors are only logged); the node list is not rewritten
+//@ func (*Session).NodePreOrderFn
+//@   props C04
+//@   usestable []Operation Session.NodePreOrderFns []api.NodePreOrderFn Session.ClusterInfo Session.Cache Session.eventHandlers []*EventHandler ClusterInfo.PodGroupInfos ClusterInfo.Nodes map[common_info.PodGroupID]*podgroup_info.PodGroupInfo map[string]*node_info.NodeInfo
+//@   requires ssn != nil
+//@   assume forall i int :: 0 <= i && i < len(ssn.NodePreOrderFns) ==> ssn.NodePreOrderFns[i] != nil
+//@   note assumed: no nil function is registered
+//@   nopanic off
+//@   note nopanic off: task.Name is read for the error log line only (a nil task is the caller's matter)
+//@   modifies *
+//@   loop 1
+//@     modifies *
+//@     invariant 0 - 1 <= rangeindex && rangeindex < len(ssn.NodePreOrderFns)
+//@     invariant ssn.NodePreOrderFns == old(ssn.NodePreOrderFns)
+//@     invariant forall j int :: 0 <= j && j < len(fittingNodes) ==> fittingNodes[j] == old(fittingNodes[j])
+//@     invariant pluginFrame()
+//@     invariant skelSame(ssn)
+//@     decreases len(ssn.NodePreOrderFns) - rangeindex
+//@   ensures [inputKept] forall j int :: 0 <= j && j < len(fittingNodes) ==> fittingNodes[j] == old(fittingNodes[j])
 //@   ensures [logsSame] logsSame()
 //@   ensures [virtual] noEmission() && reversals() == old(reversals()) && reverseFailures() == old(reverseFailures())
 //@   ensures [sessionKept] old(sessOK(ssn)) ==> sessionKept(ssn)
@@ -1185,5 +1295,9 @@ package framework
 //@ stable slicetype []api.PredicateFn
 //@ stable Session.PrePredicateFns
 //@ stable slicetype []api.PrePredicateFn
+//@ stable Session.NodeOrderFns
+//@ stable slicetype []api.NodeOrderFn
+//@ stable Session.NodePreOrderFns
+//@ stable slicetype []api.NodePreOrderFn
 //@ stable Session.PreJobAllocationFns
 //@ stable slicetype []api.PreJobAllocationFn
